@@ -45,6 +45,9 @@ def hand_cases():
         ("std_err_next_long", ["SYSTem:ERRor:NEXT?"], ["SYSTem:ERRor:NEXU?"], ("ErrorCommands",)),
         ("std_err_count", ["SYSTem:ERRor:COUNt?"], ["SYSTem:ERRor:COUMt?"], ("ErrorCommands",)),
         ("common", ["*RST", "*RST"], ["*RST", "*RSU"], ()),
+        # collides only through the short form, in both declaration orders
+        ("short_vs_long_decl_first", ["FREQ:STEP?", "FREQuency:STEP?"], ["FREQ:STEP?", "FREQuency:STOP?"], ()),
+        ("short_vs_long_decl_last", ["FREQuency:STEP?", "FREQ:STEP?"], ["FREQuency:STOP?", "FREQ:STEP?"], ()),
     ]
 
 
@@ -54,6 +57,11 @@ def controls():
         ("ctl_same_mnemonic_levels", ["A", "A:A", "A:A:A", "B:A"], ()),
         ("ctl_std_command_variant", ["SYSTem:VERSion"], ("StandardCommands",)),
         ("ctl_short_long_disjoint", ["VALue?", "VALU?"], ()),
+        # `_` is a mnemonic character: headers that differ only in where the level boundary falls are different headers
+        ("ctl_underscore_boundary", ["TRIG_A:LEVel?", "TRIG:A_LEVel?", "TRIG_A_LEVel?"], ()),
+        ("ctl_underscore_prefix", ["CH_1:ON", "CH:_1ON", "CH_:X1"], ()),
+        # same short form prefix, different long forms
+        ("ctl_short_prefix", ["FREQuency:STEP?", "FREQUEnz:STEP?", "FREQ2:STEP?"], ()),
     ]
 
 
